@@ -25,7 +25,12 @@ rule cin { strings: $s = "ab" condition: #s in (1..3) == 1 }
 rule off2 { strings: $s = "ab" condition: @s[2] == 3 or !s[1] != 2 }
 rule ofin { strings: $x = "aa" $y = "bb" condition: any of them in (2..3) }
 rule at3 { strings: $s = "ba" condition: $s at 3 }
-"""
+""" + "".join('rule d_%s_%d { condition: console.log("%s(%s) ", %s(%s)) }\n' % (f.replace(".", "_"), k, f, a, f, a)
+              for f in ("hash.md5", "hash.sha1", "hash.sha256", "hash.crc32", "hash.checksum32", "math.entropy", "math.mean", "math.serial_correlation")
+              for k, a in enumerate(("1, 3", "0, filesize", "2, 2", "1, 4")))
+RULES = 'import "hash" import "math" import "console"' + RULES
+# the d_* rules log values computed from byte ranges that the modules fetch through the block iterator at evaluation time: a range that starts in one block and ends
+# inside a later one must give the value of the same range of the whole buffer
 EP_RULES = """
 import "tests"
 rule head { strings: $a = "HEAD" condition: $a at 0 }
@@ -85,6 +90,11 @@ def run_chunk(arg):
                     out["evals"] += 1
                     if rm.get(m[1]) != m:
                         out["viol"].append(("C13:multi-block-iterator-differs-from-mem:%s" % m[1].split(":")[-1], dict(buffer=buf.decode(), blocks=parts, rule=m[1], mem=m, iterator=rm.get(m[1]))))
+                lw, lr = [m[1] for m in whole["t"] if m[0] == "log"], [m[1] for m in ref["t"] if m[0] == "log"]
+                out["evals"] += 1
+                if lw != lr:
+                    d = [(a, b) for a, b in zip(lw, lr) if a != b][:1] or [("(different number of values)", "")]
+                    out["viol"].append(("C13:multi-block-iterator-differs-from-mem:range-function:%s" % d[0][0].split("(")[0], dict(buffer=buf.decode(), blocks=parts, mem=d[0][0], iterator=d[0][1])))
                 if ref["rc"] != whole["rc"] or [m[0] for m in ref["t"]] [-1:] != ["fin"]:
                     out["viol"].append(("C13:multi-block-iterator-differs-from-mem:rc-or-finish", dict(buffer=buf.decode(), blocks=parts, mem=whole, iterator=ref)))
             ncalls = (len(parts) if parts else 1) + 1
